@@ -5,6 +5,8 @@ use crate::{fixed::FixedPointOps, num::Unsigned, pool::delta::BalanceChange, pri
 
 /// Fee Parameters.
 #[derive(Debug, Clone, Copy, TypedBuilder)]
+// verif hook: equality is needed only by the relational verification harnesses (feature `verif`).
+#[cfg_attr(feature = "verif", derive(PartialEq, Eq))]
 pub struct FeeParams<T> {
     positive_impact_fee_factor: T,
     negative_impact_fee_factor: T,
@@ -145,6 +147,8 @@ impl<T> FeeParams<T> {
 
 /// Borrowing Fee Parameters.
 #[derive(Debug, Clone, Copy, TypedBuilder)]
+// verif hook: equality is needed only by the relational verification harnesses (feature `verif`).
+#[cfg_attr(feature = "verif", derive(PartialEq, Eq))]
 pub struct BorrowingFeeParams<T> {
     receiver_factor: T,
     exponent_for_long: T,
@@ -187,6 +191,8 @@ impl<T> BorrowingFeeParams<T> {
 
 /// Borrowing Fee Kink Model Parameters.
 #[derive(Debug, Clone, Copy, TypedBuilder)]
+// verif hook: equality is needed only by the relational verification harnesses (feature `verif`).
+#[cfg_attr(feature = "verif", derive(PartialEq, Eq))]
 pub struct BorrowingFeeKinkModelParams<T> {
     long: BorrowingFeeKinkModelParamsForOneSide<T>,
     short: BorrowingFeeKinkModelParamsForOneSide<T>,
@@ -292,6 +298,8 @@ impl<T> BorrowingFeeKinkModelParams<T> {
 
 /// Borrowing Fee Kink Model Parameters for one side.
 #[derive(Debug, Clone, Copy, TypedBuilder)]
+// verif hook: equality is needed only by the relational verification harnesses (feature `verif`).
+#[cfg_attr(feature = "verif", derive(PartialEq, Eq))]
 pub struct BorrowingFeeKinkModelParamsForOneSide<T> {
     optimal_usage_factor: T,
     base_borrowing_factor: T,
@@ -300,6 +308,8 @@ pub struct BorrowingFeeKinkModelParamsForOneSide<T> {
 
 /// Funding Fee Parameters.
 #[derive(Debug, Clone, Copy, TypedBuilder)]
+// verif hook: equality is needed only by the relational verification harnesses (feature `verif`).
+#[cfg_attr(feature = "verif", derive(PartialEq, Eq))]
 pub struct FundingFeeParams<T> {
     exponent: T,
     funding_factor: T,
@@ -398,6 +408,8 @@ pub enum FundingRateChangeType {
 
 /// Liquidation Fee Parameters.
 #[derive(Debug, Clone, Copy, TypedBuilder)]
+// verif hook: equality is needed only by the relational verification harnesses (feature `verif`).
+#[cfg_attr(feature = "verif", derive(PartialEq, Eq))]
 pub struct LiquidationFeeParams<T> {
     factor: T,
     receiver_factor: T,
